@@ -59,6 +59,9 @@ func ValidateAttesterSlashing(ctx context.Context, attSl *phase0.AttesterSlashin
 	if err != nil {
 		return GossipValidatorResult{IGNORE, errors.New("no access to validators state data")}
 	}
+	// The seen-check above is about the whole intersection: remember it, all of it is marked as seen on success.
+	intersection := append(common.ValidatorSet(nil), slashable...)
+
 	// [REJECT] All of the conditions within process_attester_slashing pass validation.
 	// Part 2: make sure validators are actually slashable
 	err = slashable.Filter(func(index common.ValidatorIndex) (bool, error) {
@@ -84,6 +87,6 @@ func ValidateAttesterSlashing(ctx context.Context, attSl *phase0.AttesterSlashin
 	if err := phase0.ValidateIndexedAttestation(spec, epc, state, sa2); err != nil {
 		return GossipValidatorResult{REJECT, fmt.Errorf("attester slashing att 2 signature is invalid: %v", err)}
 	}
-	attSlVal.MarkAttesterSlashings(slashable)
+	attSlVal.MarkAttesterSlashings(intersection)
 	return GossipValidatorResult{ACCEPT, nil}
 }
